@@ -13,6 +13,7 @@ import MdpaxV.Model.Spaces
 import MdpaxV.Model.Matrices
 import MdpaxV.Model.Shipped
 import MdpaxV.Model.Probs
+import MdpaxV.Model.Store
 open MdpaxV
 
 /-! parsing / printing -/
@@ -70,10 +71,15 @@ structure Solver where
   st : SState Rat
   perms : List (Nat × Option (List Nat)) := []   -- semi-async: permutation used for iteration k
   chooseReal : Bool := false                      -- semi-async: does the real update win against padding
+  dir : Option String := none                     -- checkpoint directory id (none = checkpointing disabled)
+  maxKeep : Nat := 1
+  fullCfg : Bool := false
 
 structure DState where
   probs : List (String × TabP) := []
   solvers : List (String × Solver) := []
+  dirs : List (String × Store (SState Rat)) := []
+  dirCfg : List (String × Solver) := []           -- the configuration saved in config.yaml of a directory
 
 def mkProblem (a : Args) : Except String TabP := do
   let nS ← pNat (← arg a "S"); let nA ← pNat (← arg a "A"); let nE ← pNat (← arg a "E")
@@ -129,6 +135,22 @@ def shippedTable (states actions events : List (List Int)) (idx : List Int → I
     (trans : List Int → List Int → List Int → List Int × Rat) : String :=
   let triples := states.flatMap fun s => actions.flatMap fun a => events.map fun e => trans s a e
   s!"states={fList2 toString states} actions={fList2 toString actions} events={fList2 toString events} sidx={fList toString (states.map idx)} nxtvec={fList2 toString (triples.map (·.1))} nxt={fList toString (triples.map fun t => idx t.1)} rew={fList fRat (triples.map (·.2))}"
+
+def getDir (d : DState) (k : String) : Store (SState Rat) := (d.dirs.lookup k).getD {}
+def setDir (d : DState) (k : String) (st : Store (SState Rat)) : DState := { d with dirs := (k, st) :: d.dirs.filter (·.1 ≠ k) }
+
+def fStore (st : Store (SState Rat)) : String :=
+  s!"created={st.created} config={st.hasConfig} steps={fList toString st.labels} stepvals={fList2 fRat (st.steps.map (·.2.values))} stepiters={fList toString (st.steps.map (·.2.iter))}"
+
+/-- what `_restore_state_from_checkpoint` leaves in a solver built from the template of a fresh solver:
+    the value-iteration family restores into a template whose policy is `None`, so the stored policy is dropped -/
+def restoredState (kind : Kind) (snap : SState Rat) : SState Rat :=
+  if kind = Kind.pi then snap else { snap with policy := none }
+
+def fErr : RestoreErr → String
+  | .fileNotFound => "error=FileNotFoundError"
+  | .noCheckpoint => "error=ValueError"
+  | .missingStep => "error=missing-step"
 
 def handle (d : DState) (line : String) : Except String (DState × String) := do
   let toks := (line.trimAscii.toString.splitOn " ").filter (· ≠ "")
@@ -240,6 +262,42 @@ def handle (d : DState) (line : String) : Except String (DState × String) := do
         let probs := (mirjaliliEvents c).map fun ev =>
           mirjaliliProb (fun d => dp.getD d 0) (fun _ => cat) order (ev.headD 0).toNat ((ev.drop 1).map Int.toNat)
         pure (d, s!"probs={fList fRat probs} sum={fRat (lsum probs)}")
+    | "ls" => do
+        pure (d, fStore (getDir d (← arg a "dir")))
+    | "restore" => do
+        -- Solver.restore(dir, step, new_checkpoint_dir, checkpoint_frequency, max_checkpoints)
+        let sid ← arg a "sid"; let dirId ← arg a "dir"
+        let step ← match a.lookup "step" with | none => pure none | some v => do pure (some (← pNat v))
+        let st := getDir d dirId
+        -- order of effects in the code: config.yaml check; instantiate(config) (which sets up the target directory);
+        -- only then is the step resolved and restored
+        if !st.hasConfig then pure (d, fErr .fileNotFound) else
+        match d.dirCfg.lookup dirId with
+        | none => pure (d, "error=FileNotFoundError")
+        | some cfg =>
+          let f ← match a.lookup "f" with | none => pure cfg.f | some v => pNat v
+          let mk ← match a.lookup "m" with | none => pure cfg.maxKeep | some v => pNat v
+          let newDir := (a.lookup "newdir").getD dirId
+          let sv0 : Solver := { cfg with f, maxKeep := mk, dir := if f = 0 then none else some newDir, perms := [] }
+          let d := if f = 0 then d else
+            let d1 := setDir d newDir ((getDir d newDir).setup f true)
+            if (d1.dirCfg.lookup newDir).isNone then { d1 with dirCfg := (newDir, sv0) :: d1.dirCfg } else d1
+          match st.restore step with
+          | .error e => pure (d, fErr e)
+          | .ok (_, snap) =>
+            let sv : Solver := { sv0 with st := restoredState cfg.kind snap }
+            pure ({ d with solvers := (sid, sv) :: d.solvers.filter (·.1 ≠ sid) }, "ok " ++ fState sv.st false 0 [])
+    | "load" => do
+        let sid ← arg a "sid"; let dirId ← arg a "dir"
+        let step ← match a.lookup "step" with | none => pure none | some v => do pure (some (← pNat v))
+        match d.solvers.lookup sid with
+        | none => throw "unknown solver"
+        | some sv =>
+          match (getDir d dirId).load step with
+          | .error e => pure (d, fErr e)
+          | .ok (_, snap) =>
+            let sv' := { sv with st := restoredState sv.kind snap }
+            pure ({ d with solvers := (sid, sv') :: d.solvers.filter (·.1 ≠ sid) }, "ok " ++ fState sv'.st false 0 [])
     | "qrow" => do
         let p ← getP d (← arg a "id")
         let γ ← pRat (← arg a "gamma"); let V ← pList pRat (← arg a "V"); let s ← pNat (← arg a "s")
@@ -284,7 +342,15 @@ def handle (d : DState) (line : String) : Except String (DState × String) := do
             | Kind.rvi => rviInit p.P c
             | _ => initState p.P c
           let reset := if argD a "reset" "0" = "1" then some st.values else none
-          let sv : Solver := { kind, pid, c, γ, ε, thr, test, period, clear, budget, reset, f, st }
+          let dirId := if f = 0 then none else a.lookup "dir"
+          let maxKeep ← pNat (argD a "m" "1")
+          let fullCfg := argD a "cfg" "0" = "1"
+          let sv : Solver := { kind, pid, c, γ, ε, thr, test, period, clear, budget, reset, f, st, dir := dirId, maxKeep, fullCfg }
+          let d := match dirId with
+            | none => d
+            | some k =>
+              let d1 := setDir d k ((getDir d k).setup f fullCfg)
+              if fullCfg && (d1.dirCfg.lookup k).isNone then { d1 with dirCfg := (k, sv) :: d1.dirCfg } else d1
           pure ({ d with solvers := (sid, sv) :: d.solvers.filter (·.1 ≠ sid) }, s!"ok thr={fRat thr} " ++ fState st false 0 [])
     | "setpolicy" => do
         let sid ← arg a "sid"
@@ -333,6 +399,9 @@ def handle (d : DState) (line : String) : Except String (DState × String) := do
             | Kind.semi => minMargin (fun s => some (semiMeasure p.P sv.c sv.γ sv.test permFn chooseFn s)) (semiStep p.P sv.c sv.γ sv.thr sv.test permFn chooseFn) sv.thr k sv.st none
             | Kind.pi => none
           let sv' := { sv with st := r.state }
+          let d := match sv.dir with
+            | none => d
+            | some k => setDir d k ((getDir d k).applySaves sv.maxKeep r.saves)
           pure ({ d with solvers := (sid, sv') :: d.solvers.filter (·.1 ≠ sid) },
                 fState r.state r.converged r.sweeps r.saves ++ s!" minmargin={fOptRat mm}")
     | _ => throw s!"unknown command {cmd}"
